@@ -5,7 +5,7 @@ from vlib.core import Query
 META = {
     "engine": "E4 SIMD-vs-C equivalence",
     "level_text": "For each listed kernel pair and block geometry, CBMC runs the real AVX2/SSE2 kernel body and the real C reference on the same arbitrary sample content (all 2^(8n)/2^(16n) inputs, extremes included) and proves every output element equal, every element outside the block untouched, and every access inside exact-size heap buffers. x86 intrinsics are evaluated by gcc's own header definitions where they are plain vector C, and by lane-wise C bodies (models/ia32_models.h) for the builtins CBMC lacks; a translator-validation query proves CBMC's evaluation of every intrinsic used equals the CPU's result on concrete operand vectors.",
-    "level_note": "Kernels covered: svt_convert_16bit_to_8bit_avx2, svt_convert_8bit_to_16bit_avx2, svt_residual_kernel8bit_avx2, svt_residual_kernel16bit_avx2, svt_residual_kernel16bit_sse2_intrin, svt_picture_average_kernel_sse2_intrin, svt_unpack_avg_avx2_intrin, svt_unpack_avg_sse2_intrin, svt_enc_un_pack8_bit_data_avx2_intrin (element-wise, all AV1 block widths 4..64, 4 rows) and svt_spatial_full_distortion_kernel_avx2 for 4x2 blocks only. Reduction kernels (SSE/SAD/variance) beyond 8 accumulated terms are outside: equality of two differently associated 16-term sums is SAT-hard (isolated 10-line test > 120 s on all SAT back ends) and CBMC's SMT back ends abort on gcc vector casts, so those kernels, the transform/convolve/intra-prediction kernels, AVX512, and all other dispatch entries are not claimed.",
+    "level_note": "Kernels covered: svt_convert_16bit_to_8bit_avx2, svt_convert_8bit_to_16bit_avx2, svt_residual_kernel8bit_avx2, svt_residual_kernel16bit_avx2, svt_residual_kernel16bit_sse2_intrin, svt_picture_average_kernel_sse2_intrin, svt_unpack_avg_avx2_intrin, svt_unpack_avg_sse2_intrin, svt_enc_un_pack8_bit_data_avx2_intrin (element-wise, all AV1 block widths 4..64, 4 rows); svt_spatial_full_distortion_kernel_avx2 for 4x2 blocks only; and every intrinsics-written 8-bit/10-bit intra predictor of the families v, h, dc_128 (blocks up to 512 samples; v and dc_128 up to 64x64 in the thorough tier) and dc/dc_top/dc_left while the DC sum has at most 8 terms -- the list is derived from the SET_* lines of common_dsp_rtcd.c on every run (currently about 100 kernel pairs). Smooth/paeth predictors did not finish in 300 s even at 4x4 and are outside. Reduction kernels (SSE/SAD/variance) beyond 8 accumulated terms are outside: equality of two differently associated 16-term sums is SAT-hard (isolated 10-line test > 120 s on all SAT back ends) and CBMC's SMT back ends abort on gcc vector casts, so those kernels, the transform/convolve/intra-prediction kernels, AVX512, and all other dispatch entries are not claimed.",
     "technique": "solver-based checking of the real code (CBMC bounded symbolic execution of the real SIMD kernel body and its C reference on the same symbolic input; equivalence assertion; intrinsic models validated against the CPU)",
     "assumptions": ["svt_convert_16bit_to_8bit: source samples <= 255 (16-bit containers of 8-bit data; the AVX2 pack saturates where the C cast truncates)",
                     "squaring in the SSE query abstracted by an arbitrary 16-bit table shared by both sides (sound: the real squares are one instance)"],
@@ -83,10 +83,82 @@ def sse_sparse(w, h, g, n=4, to=300):
                  what="returned SSE identical")
 
 
+_PRED_CACHE = {}
+
+
+def pred_pairs():
+    """(pointer, c function, simd function, defining .c file, W, H, highbd) for every intra predictor whose SIMD variant is written with intrinsics"""
+    import os, re, subprocess
+    from vlib import core, slicer
+    if "p" in _PRED_CACHE:
+        return _PRED_CACHE["p"]
+    src = slicer.read("Source/Lib/Common/Codec/common_dsp_rtcd.c")
+    out = []
+    names = {}
+    for m in re.finditer(r"\bSET_([A-Z0-9_]+)\(\s*(svt_aom_(highbd_)?[a-z0-9_]*_predictor_(\d+)x(\d+))\s*,([^;]*?)\)\s*;", src, re.S):
+        kind, ptr, hb, w, h = m.group(1), m.group(2), bool(m.group(3)), int(m.group(4)), int(m.group(5))
+        rest = [a.strip() for a in m.group(6).split(",")]
+        levels = [] if kind == "ONLY_C" else kind.split("_")
+        for v, l in zip(rest[1:], levels):
+            if l != "AVX512":
+                names[v] = (ptr, rest[0], w, h, hb)
+    if not names:
+        raise RuntimeError("no predictor dispatch lines recognised")
+    # one grep over the intrinsic sources for all definitions
+    dirs = [os.path.join(core.REPO, "Source/Lib/Common", d) for d in ("ASM_SSE2", "ASM_SSSE3", "ASM_SSE4_1", "ASM_AVX2")]
+    r = subprocess.run(["grep", "-rnE", "--include=*.c", r"^(void|static void|EB_API void) *svt_aom_[a-z0-9_]*_predictor_[0-9]+x[0-9]+_[a-z0-9]+ *\(", *dirs], capture_output=True, text=True)
+    where = {}
+    for line in r.stdout.splitlines():
+        f, _, txt = line.split(":", 2)
+        mm = re.search(r"(svt_aom_[a-z0-9_]*_predictor_[0-9]+x[0-9]+_[a-z0-9]+) *\(", txt)
+        if mm:
+            where[mm.group(1)] = os.path.relpath(f, core.REPO)
+    for v, (ptr, c, w, h, hb) in sorted(names.items()):
+        if v in where:
+            out.append((ptr, c, v, where[v], w, h, hb))
+    _PRED_CACHE["p"] = out
+    return out
+
+
+def pred(ptr, c, v, f, w, h, hb, to=300):
+    def gen(wd, f=f):
+        import os
+        with open(os.path.join(wd, "c07_pred_srcs.inc"), "w") as o:
+            o.write('#include "%s"\n' % f)
+            o.write('#include "Source/Lib/Common/Codec/EbIntraPrediction.c"\n')
+            from vlib import slicer
+            o.write("/* EbCdef.c:svt_aom_memset16, sliced by name */\n" + slicer.functions("Source/Lib/Common/Codec/EbCdef.c", ["svt_aom_memset16"]))
+    return Query(name="%s_eq_c" % v.replace("svt_aom_", ""), harness="C07/intrapred.c", simd=True, gen=gen, defines=["FN_C=%s" % c, "FN_S=%s" % v, "BLK_W=%d" % w, "BLK_H=%d" % h, "HIGHBD=%d" % (1 if hb else 0)],
+                 unwind=max(2 * w, 2 * h, (w + 3) * h) + 40, timeout=to, flags=["--object-bits", "10"], funcs=[f + ":" + v, "Source/Lib/Common/Codec/EbIntraPrediction.c:" + c],
+                 bound="block %dx%d, %s samples, every content of the above/left edge arrays (16 samples of slack before, extensions after)" % (w, h, "10-bit" if hb else "8-bit"),
+                 what="every predicted sample equal, samples outside the block untouched, no out-of-bounds access")
+
+
+def pred_family(x):
+    return x[2].replace("svt_aom_", "").replace("highbd_", "").split("_predictor_")[0]
+
+
+def pred_selected(tier):
+    """predictor pairs measured to be decidable: copy/broadcast families at all sizes, DC families while the reduction has <= 8 terms (see DESIGN.md section 1);
+    smooth/paeth (per-sample products in differently associated sums) did not finish in 300 s even at 4x4 and are outside"""
+    out = []
+    for x in pred_pairs():
+        fam, w, h = pred_family(x), x[4], x[5]
+        small = w * h <= 512
+        if fam in ("h", "v", "dc_128"):
+            if small or (tier == "thorough" and fam in ("v", "dc_128")):
+                out.append(x)
+        elif (fam == "dc_top" and w <= 4) or (fam == "dc_left" and h <= 4) or (fam == "dc" and w + h <= 8):
+            if small:
+                out.append(x)
+    return out
+
+
 def queries(tier):
     qs = [selftest()] + [conv(w) for w in (4, 8, 24, 32, 40, 64)]
     qs += [elem(k, w) for k in (1, 2, 3, 4, 5, 6, 7, 8) for w in (4, 8, 16, 32, 64)]
     qs += [sse(4, 2)]
+    qs += [pred(*x, to=600) for x in pred_selected(tier)]
     if tier == "thorough":
         qs += [conv(w) for w in (1, 2, 3, 5, 7, 12, 16, 17, 31, 33, 48, 63, 65, 72, 96, 128)]
         qs += [sse_sparse(w, 2, g) for w in (8, 16) for g in range(w * 2 // 4)]  # measured: 61 s (8x2) / 101 s (16x2) per query; 32x2 does not finish in 300 s
